@@ -95,6 +95,12 @@ pub struct Emit {
     /// Ticket after the channel accepted the whole frame (None: the write never completed).
     pub t1: Option<u64>,
     pub what: Emitted,
+    /// For a frame that carries state (`Std`, `SyncEv`): the position in the lane's history of the
+    /// change that established the state shown (0 = the state the incarnation started from). This is
+    /// what gives a frame with an *empty* body (which has no identity of its own) its place.
+    pub idx: usize,
+    /// Virtual time of the emission.
+    pub at: tokio::time::Instant,
 }
 
 #[derive(Clone, Debug, PartialEq, Eq)]
@@ -112,6 +118,8 @@ pub struct LaneRec {
     /// Ticket when `add_lane` handed the channels over.
     pub reg_io: Option<u64>,
     pub reg_error: Option<(u64, String)>,
+    /// Virtual time of the registration error.
+    pub reg_error_at: Option<tokio::time::Instant>,
     /// What the runtime sent before `InitComplete` (persistent lanes only wait for it).
     pub init_items: Vec<(u64, InitItem)>,
     pub init_complete: Option<u64>,
@@ -193,8 +201,11 @@ struct Lane {
     ctl_open: bool,
     current: Bytes,
     map: BTreeMap<Bytes, Bytes>,
-    /// Standard events adopted but not yet emitted (see `LaneCtl::Apply::defer`).
-    deferred: VecDeque<Op>,
+    /// Standard events adopted but not yet emitted (see `LaneCtl::Apply::defer`), with their history position.
+    deferred: VecDeque<(Op, usize)>,
+    /// History position of the change that set the current value / each current entry (0: restored or default).
+    value_at: usize,
+    set_at: BTreeMap<Bytes, usize>,
 }
 
 fn raw_op(op: &Op) -> Option<MapOperation<Bytes, Bytes>> {
@@ -207,11 +218,11 @@ fn raw_op(op: &Op) -> Option<MapOperation<Bytes, Bytes>> {
 }
 
 impl Lane {
-    async fn write_frame(&mut self, what: Emitted) -> bool {
+    async fn write_frame(&mut self, what: Emitted, hist_idx: usize) -> bool {
         let Some(wr) = self.wr.as_mut() else { return false };
         let idx = {
             let mut g = self.rec.lock();
-            g.emitted.push(Emit { t0: ticket(), t1: None, what: what.clone() });
+            g.emitted.push(Emit { t0: ticket(), t1: None, what: what.clone(), idx: hist_idx, at: tokio::time::Instant::now() });
             g.emitted.len() - 1
         };
         let r = match (wr, &what) {
@@ -247,27 +258,38 @@ impl Lane {
     }
 
     async fn flush_deferred(&mut self) {
-        while let Some(op) = self.deferred.pop_front() {
-            if !self.write_frame(Emitted::Std(op)).await {
+        while let Some((op, at)) = self.deferred.pop_front() {
+            if !self.write_frame(Emitted::Std(op), at).await {
                 self.deferred.clear();
                 return;
             }
         }
     }
 
-    fn adopt(&mut self, op: &Op) {
+    /// Adopts the change; returns its (1-based) position in the lane's history.
+    fn adopt(&mut self, op: &Op) -> usize {
+        let n = self.rec.lock().hist.len() + 1;
         match (self.spec.kind, op) {
-            (Kind::Value, Op::Set(b)) => self.current = b.clone(),
+            (Kind::Value, Op::Set(b)) => {
+                self.current = b.clone();
+                self.value_at = n;
+            }
             (Kind::Map, Op::Upd(k, v)) => {
                 self.map.insert(k.clone(), v.clone());
+                self.set_at.insert(k.clone(), n);
             }
             (Kind::Map, Op::Rem(k)) => {
                 self.map.remove(k);
+                self.set_at.remove(k);
             }
-            (Kind::Map, Op::Clr) => self.map.clear(),
-            _ => return,
+            (Kind::Map, Op::Clr) => {
+                self.map.clear();
+                self.set_at.clear();
+            }
+            _ => return 0,
         }
         self.rec.lock().hist.push((ticket(), op.clone()));
+        n
     }
 
     async fn handle_ctl(&mut self, c: LaneCtl) {
@@ -279,11 +301,11 @@ impl Lane {
                 if !fits || self.wr.is_none() {
                     return;
                 }
-                self.adopt(&op);
+                let at = self.adopt(&op);
                 if defer {
-                    self.deferred.push_back(op);
+                    self.deferred.push_back((op, at));
                 } else {
-                    self.write_frame(Emitted::Std(op)).await;
+                    self.write_frame(Emitted::Std(op), at).await;
                 }
             }
         }
@@ -292,20 +314,21 @@ impl Lane {
     async fn answer_sync(&mut self, id: Uuid) {
         match self.spec.kind {
             Kind::Value => {
-                if !self.write_frame(Emitted::SyncEv(id, Op::Set(self.current.clone()))).await {
+                if !self.write_frame(Emitted::SyncEv(id, Op::Set(self.current.clone())), self.value_at).await {
                     return;
                 }
             }
             Kind::Map => {
                 let entries: Vec<(Bytes, Bytes)> = self.map.iter().map(|(k, v)| (k.clone(), v.clone())).collect();
                 for (k, v) in entries {
-                    if !self.write_frame(Emitted::SyncEv(id, Op::Upd(k, v))).await {
+                    let at = self.set_at.get(&k).copied().unwrap_or(0);
+                    if !self.write_frame(Emitted::SyncEv(id, Op::Upd(k, v)), at).await {
                         return;
                     }
                 }
             }
         }
-        self.write_frame(Emitted::Synced(id)).await;
+        self.write_frame(Emitted::Synced(id), 0).await;
     }
 
     async fn handle_req(&mut self, r: Option<Req>) {
@@ -373,7 +396,9 @@ async fn register(
     let (tx, rx) = match add.await {
         Ok(io) => io,
         Err(e) => {
-            rec.lock().reg_error = Some((ticket(), format!("add_lane: {e}")));
+            let mut g = rec.lock();
+            g.reg_error = Some((ticket(), format!("add_lane: {e}")));
+            g.reg_error_at = Some(tokio::time::Instant::now());
             return None;
         }
     };
@@ -392,6 +417,8 @@ async fn register(
         ctl_open: true,
         map: BTreeMap::new(),
         deferred: VecDeque::new(),
+        value_at: 0,
+        set_at: BTreeMap::new(),
     };
     // The runtime performs the handshake with every non-transient value/map lane; a transient lane
     // is driven at once (it must not wait for an `InitComplete` that never comes).
@@ -415,18 +442,27 @@ async fn register(
                 Some(Req::MapOther(w)) => lane.rec.lock().init_items.push((t, InitItem::Other(w))),
                 Some(Req::Sync(_)) => lane.rec.lock().init_items.push((t, InitItem::Other("sync".into()))),
                 Some(Req::DecodeError(e)) => {
-                    lane.rec.lock().reg_error = Some((t, format!("initialisation channel: decode error {e}")));
+                    let mut g = lane.rec.lock();
+                    g.reg_error = Some((t, format!("initialisation channel: decode error {e}")));
+                    g.reg_error_at = Some(tokio::time::Instant::now());
+                    drop(g);
                     return None;
                 }
                 None => {
-                    lane.rec.lock().reg_error = Some((t, "initialisation channel closed".to_string()));
+                    let mut g = lane.rec.lock();
+                    g.reg_error = Some((t, "initialisation channel closed".to_string()));
+                    g.reg_error_at = Some(tokio::time::Instant::now());
+                    drop(g);
                     return None;
                 }
             }
         }
-        if !lane.write_frame(Emitted::Initialized).await {
+        if !lane.write_frame(Emitted::Initialized, 0).await {
             let t = ticket();
-            lane.rec.lock().reg_error = Some((t, "could not acknowledge the initialisation".to_string()));
+            let mut g = lane.rec.lock();
+            g.reg_error = Some((t, "could not acknowledge the initialisation".to_string()));
+            g.reg_error_at = Some(tokio::time::Instant::now());
+            drop(g);
             return None;
         }
         lane.rec.lock().initialized_sent = Some(ticket());
